@@ -18,3 +18,13 @@ func (v *FormatValidator) Validate(ctx context.Context, obj *object.Object, unpr
 	}
 	return v.Validate__real(ctx, obj, unprepared, allowAllVersions)
 }
+
+// VerifHookValidateContent models ValidateContent (type-specific payload rules).
+var VerifHookValidateContent func(obj *object.Object) error
+
+func (v *FormatValidator) ValidateContent(ctx context.Context, o *object.Object) error {
+	if h := VerifHookValidateContent; h != nil {
+		return h(o)
+	}
+	return v.ValidateContent__real(ctx, o)
+}
